@@ -43,12 +43,12 @@ theorem pct_encode_legal (bs : Bytes) : HMap.legalValue (Pct.encode bs) = true :
 /-! ### `add_header` never fails; its result as a pure function -/
 
 /-- the header block `add_header` produces from `h0` -/
-def wire (st : St) (h0 : HMap) : HMap :=
-  let h1 := HMap.insert GRPC_STATUS st.code.headerValue (HMap.extend h0 (sanitize st.metadata))
+def wire (v : Variant) (st : St) (h0 : HMap) : HMap :=
+  let h1 := HMap.insert GRPC_STATUS st.code.headerValue (HMap.extend h0 (statusMetadata v st.metadata))
   let h2 := if st.message = [] then h1 else HMap.insert GRPC_MESSAGE (Pct.encode st.message) h1
   if st.details = [] then h2 else HMap.insert GRPC_STATUS_DETAILS (B64.encode false st.details) h2
 
-theorem addHeader_eq (st : St) (h0 : HMap) : addHeader st h0 = .ok (wire st h0) := by
+theorem addHeader_eq (v : Variant) (st : St) (h0 : HMap) : addHeader v st h0 = .ok (wire v st h0) := by
   unfold addHeader withMessage withDetails wire
   by_cases hm : st.message = [] <;> by_cases hd : st.details = [] <;>
     simp [hm, hd, pct_encode_legal, b64_encode_legal]
@@ -62,23 +62,48 @@ theorem getAll_sanitize (k : Bytes) (m : HMap) :
     HMap.getAll k (sanitize m) = if k ∈ reservedHeaders then [] else HMap.getAll k m :=
   HMap.getAll_removeAll k reservedHeaders m
 
-/-- Per-name content of the block written from an empty map: the three status headers as
-encoded, every other name exactly the sanitised metadata's values in order. -/
-theorem getAll_wire (st : St) (k : Bytes) :
-    HMap.getAll k (wire st []) =
+/-- a name under which `add_header` copies metadata (repaired tree): not reserved, not the
+details header -/
+def isCustom (k : Bytes) : Bool := !reservedHeaders.contains k && k != GRPC_STATUS_DETAILS
+
+theorem getAll_statusMetadata (k : Bytes) (m : HMap) :
+    HMap.getAll k (statusMetadata .fixed m) = if isCustom k then HMap.getAll k m else [] := by
+  unfold statusMetadata isCustom
+  by_cases k3 : k = GRPC_STATUS_DETAILS
+  · subst k3; simp [HMap.getAll_remove_self]
+  · rw [HMap.getAll_remove_ne _ _ _ k3, getAll_sanitize]
+    by_cases kr : k ∈ reservedHeaders <;> simp [kr, k3]
+
+theorem getAll_extend' (k : Bytes) (m o : HMap) :
+    HMap.getAll k (HMap.extend m o) = if HMap.getAll k o = [] then HMap.getAll k m else HMap.getAll k o := by
+  rw [HMap.getAll_extend]
+  by_cases h : HMap.hasKey k o = true
+  · have := (HMap.hasKey_iff k o).mp h
+    simp [h, this]
+  · have h' : HMap.hasKey k o = false := by simpa using h
+    simp [h', HMap.getAll_eq_nil_of_not_hasKey h']
+
+/-- Per-name content of the block `add_header` makes out of `h0` (repaired tree): the three
+status headers as encoded; under every custom name that the metadata has, exactly the
+metadata's values in order; everything else as it was in `h0`. -/
+theorem getAll_wire (st : St) (h0 : HMap) (k : Bytes) :
+    HMap.getAll k (wire .fixed st h0) =
       if k = GRPC_STATUS then [st.code.headerValue]
-      else if k = GRPC_MESSAGE then (if st.message = [] then [] else [Pct.encode st.message])
-      else if k = GRPC_STATUS_DETAILS then
-        (if st.details = [] then HMap.getAll k st.metadata else [B64.encode false st.details])
-      else if k ∈ reservedHeaders then [] else HMap.getAll k st.metadata := by
+      else if k = GRPC_MESSAGE ∧ st.message ≠ [] then [Pct.encode st.message]
+      else if k = GRPC_STATUS_DETAILS ∧ st.details ≠ [] then [B64.encode false st.details]
+      else if isCustom k = true ∧ HMap.getAll k st.metadata ≠ [] then HMap.getAll k st.metadata
+      else HMap.getAll k h0 := by
   obtain ⟨n1, n2, n3, n4, n5, n6⟩ := names_ne
-  have hext : ∀ k, HMap.getAll k (HMap.extend [] (sanitize st.metadata)) = HMap.getAll k (sanitize st.metadata) := by
+  have cS : isCustom GRPC_STATUS = false := by decide
+  have cM : isCustom GRPC_MESSAGE = false := by decide
+  have cD : isCustom GRPC_STATUS_DETAILS = false := by decide
+  have hext : ∀ k, HMap.getAll k (HMap.extend h0 (statusMetadata .fixed st.metadata)) =
+      if isCustom k = true ∧ HMap.getAll k st.metadata ≠ [] then HMap.getAll k st.metadata else HMap.getAll k h0 := by
     intro k
-    rw [HMap.getAll_extend]
-    by_cases h : HMap.hasKey k (sanitize st.metadata) = true
-    · simp [h]
-    · have h' : HMap.hasKey k (sanitize st.metadata) = false := by simpa using h
-      simp [h', HMap.getAll_eq_nil_of_not_hasKey h', HMap.getAll_nil]
+    rw [getAll_extend', getAll_statusMetadata]
+    by_cases hc : isCustom k = true
+    · by_cases hg : HMap.getAll k st.metadata = [] <;> simp [hc, hg]
+    · simp [hc]
   unfold wire
   by_cases k1 : k = GRPC_STATUS
   · subst k1
@@ -87,20 +112,20 @@ theorem getAll_wire (st : St) (k : Bytes) :
       simp [hm, hd, HMap.getAll_insert_self, HMap.getAll_insert_ne _ _ _ _ n1, HMap.getAll_insert_ne _ _ _ _ n2]
   · by_cases k2 : k = GRPC_MESSAGE
     · subst k2
-      simp only [k1, if_false, if_true]
+      simp only [k1, if_false, true_and, n3, false_and]
       by_cases hm : st.message = [] <;> by_cases hd : st.details = [] <;>
         simp [hm, hd, HMap.getAll_insert_self, HMap.getAll_insert_ne _ _ _ _ n3, HMap.getAll_insert_ne _ _ _ _ (Ne.symm n1),
-          hext, getAll_sanitize, n6]
+          hext, cM]
     · by_cases k3 : k = GRPC_STATUS_DETAILS
       · subst k3
-        simp only [k1, k2, if_false, if_true]
+        simp only [k1, k2, if_false, true_and, false_and]
         by_cases hm : st.message = [] <;> by_cases hd : st.details = [] <;>
           simp [hm, hd, HMap.getAll_insert_self, HMap.getAll_insert_ne _ _ _ _ (Ne.symm n3),
-            HMap.getAll_insert_ne _ _ _ _ (Ne.symm n2), hext, getAll_sanitize, n4]
-      · simp only [k1, k2, k3, if_false]
+            HMap.getAll_insert_ne _ _ _ _ (Ne.symm n2), hext, cD]
+      · simp only [k1, k2, k3, if_false, false_and]
         by_cases hm : st.message = [] <;> by_cases hd : st.details = [] <;>
           simp [hm, hd, HMap.getAll_insert_ne _ _ _ _ k1, HMap.getAll_insert_ne _ _ _ _ k2,
-            HMap.getAll_insert_ne _ _ _ _ k3, hext, getAll_sanitize]
+            HMap.getAll_insert_ne _ _ _ _ k3, hext]
 
 /-! ### code strings -/
 
